@@ -409,6 +409,18 @@ class Evaluator:
                         raise Unmodelled("%s: comparison of %r and %r" % (fn.id, a, b))
                 return cmp(a, b) if equality else cmp(ok(a), ok(b))
             return compare
+        if name in ("cmp", "partial_cmp") and n == 2:
+            less, equal, greater = (self.unit.get("Ordering::" + x) for x in ("Less", "Equal", "Greater"))
+
+            def ordering(args, fn):
+                if None in (less, equal, greater):
+                    raise Unmodelled("%s: core::cmp::Ordering is not in the facts" % fn.id)
+                a, b = ok(args[0]), ok(args[1])
+                r = less if a < b else greater if a > b else equal
+                return ("some", r) if name == "partial_cmp" else r
+            return ordering
+        if name in ("min", "max") and n == 2:
+            return lambda args, fn: (args[0] if ok(args[0]) <= ok(args[1]) else args[1]) if name == "min" else (args[1] if ok(args[1]) >= ok(args[0]) else args[0])
         if name in ("BitAnd", "BitOr", "BitXor") and n == 2:
             op = {"BitAnd": lambda a, b: a & b, "BitOr": lambda a, b: a | b, "BitXor": lambda a, b: a ^ b}[name]
             return guard(ints, lambda args, fn: op(args[0], args[1]))
